@@ -26,7 +26,7 @@ LEVEL = "model_checking"
 MANIFEST = {
     "technique": "TLA+ spec BatchDsl checked exhaustively by TLC; TLC-enumerated pipelines (exhaustive small bounds + simulation) built with the real hailtop.batch API and run on the real LocalBackend; every execution validated by TLC as a behaviour of the spec (trace validation, B2) with the C17 invariants evaluated at each step",
     "text": "TLC explores on the specification all pipelines of 3 jobs in canonical call order with <= 2 (quick) / <= 3 (thorough) dependency edges - explicit, resource-induced, self loops, cycles, forward and backward in creation order - with every always_run assignment and every outcome of every command, and (thorough) all 3-job programs with freely interleaved calls (1.3M states). The same enumerated programs, plus TLC-simulated 4- and 5-job programs, are built with the real API; Batch._async_run's numbering / cycle rejection is recorded for every one and LocalBackend executes one program per (dependency sets, always_run) class with several / all sets of failing commands. TLC accepts a recorded execution only as a behaviour of the specification with: numbering topological over explicit + resource edges, cyclic <=> rejected with nothing run, every job resolved after its parents, skipped set = least fixpoint.",
-    "note": "Trusts TLC; the marker-file observation of which job ran (a skipped job is placed at its position in the numbered list); /bin/sh + bash exit codes. Job._dependencies after each DSL call is compared with the spec (internal attribute). PythonJob and docker images are not exercised. The numbering is held to 'some permutation' and judged by the invariants, not to the depth first order the spec models.",
+    "note": "Trusts TLC; the marker-file observation of which job ran (a skipped job is placed at its position in the numbered list); /bin/sh + bash exit codes. Job._dependencies after each DSL call is compared with the spec (internal attribute). PythonJob.call is exercised for dependency / numbering / cycle rejection only (not executed); docker images are not exercised. The numbering is held to 'some permutation' and judged by the invariants, not to the depth first order the spec models.",
     "design_ref": "DESIGN.md section 5, C17 / C18",
 }
 
@@ -66,10 +66,13 @@ def fail_sets(n, rng, limit):
     if limit is None or len(allsets) <= limit:
         return allsets
     singles = [s for s in allsets if len(s) == 1]
-    rest = [s for s in allsets if len(s) > 1]
+    pairs = [s for s in allsets if len(s) == 2]
+    rest = [s for s in allsets if len(s) > 2]
     rng.shuffle(singles)
+    rng.shuffle(pairs)
     rng.shuffle(rest)
-    return (singles[:max(1, limit - 1)] + [set()] + singles[max(1, limit - 1):] + rest)[:limit]
+    # one single failure, one double failure (two independent failures: each must cancel its own children), no failure, then the others
+    return (singles[:1] + pairs[:1] + [set()] + singles[1:] + pairs[1:] + rest)[:limit]
 
 
 def run(ctx):
@@ -83,8 +86,8 @@ def run(ctx):
     G = _dsl.GEN_CONSTS
     # (name, spec constants, generator constants, simulate, failing sets per executed class (None = all), executed classes cap)
     if ctx.quick:
-        gens = [("ex3", consts(MaxJobs=3, MaxCmds=9), dict(G, MaxDeps=2, MaxUses=2, MaxEdges=2, Undefined="TRUE"), None, 2, None),
-                ("sim4", consts(MaxJobs=4, MaxCmds=9), dict(G, MaxDeps=5, MaxUses=4, MaxEdges=6, MinLen=7), "num=250", 2, 40)]
+        gens = [("ex3", consts(MaxJobs=3, MaxCmds=9), dict(G, MaxDeps=2, MaxUses=2, MaxEdges=2, Undefined="TRUE"), None, 3, None),
+                ("sim4", consts(MaxJobs=4, MaxCmds=9), dict(G, MaxDeps=5, MaxUses=4, MaxEdges=6, MinLen=7), "num=250", 3, 40)]
     else:
         gens = [("ex2", consts(MaxJobs=2, Names='{"o", "p"}', MaxCmds=9),
                  dict(G, MaxDeps=4, MaxUses=2, MaxEdges=5, FullJobs="FALSE", Undefined="TRUE", MaxRefs=2), None, None, None),
@@ -110,6 +113,11 @@ def run(ctx):
             key = (name, k, -1)
             tasks.append((key, p, None, str(ctx.build / "run" / f"{name}-{k}"), ctx.seed))
             meta[key] = (p, None)
+            if any(op["op"] == "Command" and (op.get("refs") or any(t["t"] == "ref" for t in op.get("toks", []))) for op in p):
+                # the same program with its consumer-only jobs as PythonJobs (uses = positional / keyword / nested arguments of call())
+                key = (name, k, -2)
+                tasks.append((key, p, None, str(ctx.build / "run" / f"{name}-{k}-py"), ctx.seed))
+                meta[key] = (p, None)
     results = _dsl.run_local_many(tasks, 1 if len(tasks) < 6000 else ctx.workers)  # ~1 ms each: no job is run
     # executions: one program per (final dependency sets, always_run flags) class among the numbered ones, each
     # with all / several sets of failing commands
